@@ -183,13 +183,19 @@ impl Property for C12 {
 
     fn run(&self, src: &mut Src, rep: &mut Report) -> Verdict {
         let kind = *src.pick(KINDS);
+        // 10% of the histogram cases use 40 bounds 0.5, 1.0, ... 20.0 (the generated values 0.5 / 1 / 2 / 4 / 5 sit exactly on bounds)
+        let wide = kind.is_hist() && src.chance(26);
+        let bounds: Vec<f64> = if wide { (1..=40).map(|k| k as f64 * 0.5).collect() } else { BOUNDS.to_vec() };
+        if wide {
+            rep.class("wide-histogram(40 bounds)");
+        }
         let shared = match kind {
             Kind::Counter => Shared::C(Counter::with_opts(Opts::new("c", "h")).unwrap()),
             Kind::IntCounter => Shared::IC(IntCounter::with_opts(Opts::new("c", "h")).unwrap()),
-            Kind::Histogram => Shared::H(Histogram::with_opts(HistogramOpts::new("c", "h").buckets(BOUNDS.to_vec())).unwrap()),
+            Kind::Histogram => Shared::H(Histogram::with_opts(HistogramOpts::new("c", "h").buckets(bounds.clone())).unwrap()),
             Kind::CounterVec => Shared::CV(CounterVec::new(Opts::new("c", "h"), &["l"]).unwrap()),
             Kind::IntCounterVec => Shared::ICV(IntCounterVec::new(Opts::new("c", "h"), &["l"]).unwrap()),
-            Kind::HistogramVec => Shared::HV(HistogramVec::new(HistogramOpts::new("c", "h").buckets(BOUNDS.to_vec()), &["l"]).unwrap()),
+            Kind::HistogramVec => Shared::HV(HistogramVec::new(HistogramOpts::new("c", "h").buckets(bounds.clone()), &["l"]).unwrap()),
         };
         let mut w = World { kind, shared, children: vec![], reals: vec![], current: BTreeMap::new(), locals: vec![] };
         if !kind.is_vec() {
@@ -512,7 +518,8 @@ fn verify(w: &mut World, step: usize, log: &[String]) -> Result<(), Verdict> {
                 let NValue::Histogram { count, sum, buckets } = &f.samples[0].value else {
                     return Err(ctx("collect-shape: not a histogram".into()));
                 };
-                let want: Vec<u64> = BOUNDS.iter().map(|b| m.obs.iter().filter(|v| **v <= *b).count() as u64).collect();
+                // (the exposed bounds themselves are C08's subject; here: the counts under them)
+                let want: Vec<u64> = buckets.iter().map(|b| m.obs.iter().filter(|v| **v <= b.0).count() as u64).collect();
                 let got: Vec<u64> = buckets.iter().map(|b| b.1).collect();
                 if *count != m.count || !feq(*sum, m.value) || got != want || h.get_sample_count() != m.count || !feq(h.get_sample_sum(), m.value) {
                     return Err(ctx(format!(
